@@ -307,6 +307,26 @@ def run(tier, seed, ck: Check):
                 ev = runs[v["id"]]["events"][v["bad"] - 1]
                 ck.violation("selector-trace", c["ents"], observed=ev,
                              detail=f"get_name call {v['bad']} ({ev['dir']}/{ev['raw']!r} -> {ev['ret']!r}): {v['why']}")
+        # the trace spec is bound to what was recorded: one corrupted field -> that run rejected
+        good = [r_ for r_, v in zip(runs, vs) if not v["bad"] and len(r_["events"]) >= 2]
+        corrupted = []
+        for j, r_ in enumerate(good[:: max(1, len(good) // 12)][:12]):
+            r2 = json.loads(json.dumps(r_)); r2["id"] = j
+            seen, rep = set(), None
+            for t, e_ in enumerate(r2["events"]):
+                if e_["e"] in seen and rep is None:
+                    rep = t
+                seen.add(e_["e"])
+            if j % 2 == 0 or rep is None:
+                r2["events"][0]["n"] += 1                                # first stem numbered differently from the model
+            else:
+                r2["events"][rep]["ret"] += "x"                          # a later call for the same entity answered differently
+            corrupted.append(r2)
+        if corrupted:
+            cv = validate_traces(corrupted, dev)
+            if [v["id"] for v in cv if not v["bad"]]:
+                raise tlc.TLCFailure(f"Names_Trace accepted corrupted runs {[v['id'] for v in cv if not v['bad']]}: the trace spec does not bind")
+            ck.coverage["corrupted_traces_rejected"] = len(cv)
         for c in cases[:: max(1, len(cases) // 4)][:4]:
             ck.sample({"entities": c["ents"], "files": render(c["ents"])[0]})
         ck.assumptions += [
